@@ -19,10 +19,10 @@ RULE = (
 ASSUMPTIONS = ["single-worker pools, so first-fit inside a pool is unambiguous (as the property's observation point prescribes)", "tie order is not asserted"]
 
 
-def case_strategy(tier):
+def case_strategy(tier, single=True):
     @st.composite
     def s(draw):
-        cluster = draw(specs.clusters(max_pools=3, single_worker_pools=True))
+        cluster = draw(specs.clusters(max_pools=3 if single else 2, single_worker_pools=single))
         n_prof = draw(st.integers(1, 4))
         profiles = [draw(specs.profile_for(cluster, f"pr{i}", feasible=True, max_runtime=9, contention=draw(st.booleans()), zero_quantity=True)) for i in range(n_prof)]
         now = draw(st.integers(5, 30))
@@ -42,7 +42,7 @@ def case_strategy(tier):
         for i in range(k):
             graphs.append({"name": f"R{i}", "jobs": [{"name": f"R{i}_j", "profile": draw(st.integers(0, n_prof - 1)), "children": []}],
                            "release_time": 0, "deadline": now + 50})
-            running.append({"graph": f"R{i}", "job": f"R{i}_j", "pool": draw(st.integers(0, 2)), "worker": 0, "strategy": draw(st.integers(0, 2)),
+            running.append({"graph": f"R{i}", "job": f"R{i}_j", "pool": draw(st.integers(0, 2)), "worker": 0 if single else draw(st.integers(0, 2)), "strategy": draw(st.integers(0, 2)),
                             "elapsed": draw(st.integers(0, 5))})
         pol = draw(st.sampled_from(["EDF", "FIFO", "LSF"]))
         return {"seed": draw(st.integers(0, 999)), "now": now, "cluster": cluster, "profiles": profiles, "graphs": graphs, "running": running,
@@ -144,4 +144,97 @@ def execute(case):
     return res
 
 
-CHECKS = [Check("greedy_invocation", case_timeout=60, timeout_is_violation=True, execute=execute, strategy=case_strategy, budget={"quick": 4000, "thorough": 150000})]
+def _assignments(tasks, workers_free, budget):
+    """Every way of putting `tasks` (demand dicts) on the workers of one pool within their free quantities (DFS)."""
+    out = []
+    free = [dict(f) for f in workers_free]
+
+    def rec(i):
+        if budget[0] <= 0:
+            return
+        budget[0] -= 1
+        if i == len(tasks):
+            out.append([dict(f) for f in free])
+            return
+        d = tasks[i]
+        for f in free:
+            if all(f.get(r, 0) >= q for r, q in d.items()):
+                for r, q in d.items():
+                    f[r] = f.get(r, 0) - q
+                rec(i + 1)
+                for r, q in d.items():
+                    f[r] += q
+
+    rec(0)
+    return out
+
+
+def execute_multi(case):
+    """Pools with several workers. A greedy Placement names the pool only, so the oracle quantifies over the worker choice:
+    u is wrongly left unplaced when there is a pool in which, for EVERY way of putting the higher-or-equal priority tasks
+    reported on that pool (with their reported strategies) on its workers, some strategy of u still fits some worker."""
+    res = CaseResult()
+    V = res.violations
+    st_ = statebuilder.build_state(case)
+    policy = build.build_policy(case["policy"], st_["flags"])
+    wps = st_["worker_pools"]
+    now = st_["now"]
+    pools = list(wps.worker_pools)
+    free0 = {}
+    for p in pools:
+        free0[p.id] = [dict(st_["info"]["workers"][w.id]["capacity"]) if case["policy"].get("preemptive") else statebuilder.worker_free(w) for w in p.workers]
+    try:
+        placements = policy.schedule(now, st_["workload"], wps)
+    except Exception as e:
+        V.append(Violation("schedule_raises", f"{case['policy']['name']}.schedule raised {type(e).__name__}: {e}; case={case}", f"greedy.schedule_raises.{type(e).__name__}"))
+        return res
+    pname = case["policy"]["name"]
+    nowu = statebuilder.us(now)
+
+    def key(t):
+        if pname == "EDF":
+            return statebuilder.us(t.deadline)
+        if pname == "FIFO":
+            return statebuilder.us(t.release_time)
+        return statebuilder.us(t.deadline) - nowu - statebuilder.us(t.remaining_time)
+
+    placed, unplaced = [], []
+    for p in placements:
+        if p.placement_type == Placement.PlacementType.PLACE_TASK:
+            if p.is_placed():
+                if p.worker_pool_id not in free0 or p.execution_strategy is None:
+                    V.append(Violation("bad_placement", f"{p.task.unique_name} placed on unknown pool / without strategy; case={case}", "greedy.bad_placement"))
+                    return res
+                placed.append((p.task, p.worker_pool_id, p.execution_strategy))
+            else:
+                unplaced.append(p.task)
+    budget = [60000]
+    # joint feasibility: some worker assignment carries everything that was placed on a pool
+    for pid in free0:
+        here = [statebuilder.demand_of(s) for _t, p2, s in placed if p2 == pid]
+        if here and not _assignments(here, free0[pid], budget) and budget[0] > 0:
+            V.append(Violation("placed_tasks_exceed_capacity", f"{pname} placed {[(t.unique_name, statebuilder.demand_of(s)) for t, p2, s in placed if p2 == pid]} on a pool "
+                               f"whose workers have free {free0[pid]}: no assignment to workers fits; case={case}", f"greedy.placed_tasks_exceed_capacity.multiworker.{pname}"))
+            return res
+    for u in unplaced:
+        ku = key(u)
+        demands = [statebuilder.demand_of(s) for s in u.available_execution_strategies]
+        for pid in free0:
+            hp = [statebuilder.demand_of(s) for t, p2, s in placed if p2 == pid and key(t) <= ku]
+            worlds = _assignments(hp, free0[pid], budget)
+            if budget[0] <= 0:
+                res.discard = "assignment_enumeration_budget"
+                return res
+            if worlds and all(any(all(f.get(r, 0) >= q for r, q in d.items()) for f in world for d in demands) for world in worlds):
+                V.append(Violation("priority_inversion", f"{pname}: {u.unique_name} (key {ku}) left unplaced although, however the higher-or-equal priority placements {hp} are put on "
+                                   f"the workers of pool {pid} (free {free0[pid]}), one of its strategies {demands} fits a worker; case={case}", f"greedy.priority_inversion.multiworker.{pname}"))
+                return res
+    multi = any(len(f) > 1 for f in free0.values())
+    res.nontrivial = multi and len(placed) >= 1 and len(unplaced) >= 1
+    res.classes = [f"policy={pname}", f"unplaced={min(len(unplaced), 3)}", f"max_workers={max(len(f) for f in free0.values())}"]
+    return res
+
+
+CHECKS = [Check("greedy_invocation", case_timeout=60, timeout_is_violation=True, execute=execute, strategy=case_strategy, budget={"quick": 4000, "thorough": 150000}),
+          Check("greedy_multiworker", case_timeout=60, timeout_is_violation=True, execute=execute_multi, strategy=lambda tier: case_strategy(tier, single=False),
+                budget={"quick": 3000, "thorough": 100000})]
